@@ -11,7 +11,42 @@ struct nng_msg {
 	int id;
 	int freed;
 };
+/* a ring of message pointers moved with memcpy / memmove (the unit does not do that today; a rewrite of the resize loop
+ * might): CBMC's built-in model of memcpy is imprecise for a source pointer with a symbolic offset (counterexamples that do
+ * not replay) and a byte loop over pointers exhausts memory, so inside this unit the copies are done pointer-word by
+ * pointer-word - exact for arrays of pointers, which is all lmq.c ever copies */
+static void *
+vh_wordcpy(void *d, const void *s, size_t n)
+{
+	struct nng_msg **dd = d;
+	struct nng_msg *const *ss = s;
+	CHECK(n % sizeof(*dd) == 0, "harness: lmq.c copies whole message pointers");
+	for (size_t i = 0; i < 17; i++)
+		if (i < n / sizeof(*dd))
+			dd[i] = ss[i];
+	CHECK(n / sizeof(*dd) <= 17, "harness: copy within the modelled ring sizes");
+	return d;
+}
+static void *
+vh_wordmove(void *d, const void *s, size_t n)
+{
+	struct nng_msg *tmp[17];
+	struct nng_msg **dd = d;
+	struct nng_msg *const *ss = s;
+	CHECK(n % sizeof(*dd) == 0 && n / sizeof(*dd) <= 17, "harness: lmq.c moves whole message pointers within the modelled ring sizes");
+	for (size_t i = 0; i < 17; i++)
+		if (i < n / sizeof(*dd))
+			tmp[i] = ss[i];
+	for (size_t i = 0; i < 17; i++)
+		if (i < n / sizeof(*dd))
+			dd[i] = tmp[i];
+	return d;
+}
+#define memcpy vh_wordcpy
+#define memmove vh_wordmove
 #include "core/lmq.c"
+#undef memcpy
+#undef memmove
 
 #ifndef ALLOC
 #define ALLOC 4
